@@ -262,6 +262,9 @@ fn type_def(out: &mut String, d: &Value, st: &mut Style) {
         }
     }
     flags(d, &mut attrs);
+    for x in arr(&d["xattrs"]) {
+        attrs.push(s(x).to_string());
+    }
     attrs_with_docs(out, &d["doc"], &attrs, st);
     out.push_str(&format!("{}type {}", vis(&d["vis"]), s(&d["name"])));
     let fields = arr(&d["fields"]);
@@ -280,6 +283,9 @@ fn type_def(out: &mut String, d: &Value, st: &mut Style) {
         }
         if f["base"].as_bool() == Some(true) {
             attrs.push("base".to_string());
+        }
+        for x in arr(&f["xattrs"]) {
+            attrs.push(s(x).to_string());
         }
         attrs_with_docs(&mut t, &f["doc"], &attrs, st);
         t.push_str(&format!(
@@ -329,6 +335,9 @@ fn enum_def(out: &mut String, d: &Value, st: &mut Style) {
         attrs.push(format!("singleton({})", st.int(num(&d["singleton"]))));
     }
     flags(d, &mut attrs);
+    for x in arr(&d["xattrs"]) {
+        attrs.push(s(x).to_string());
+    }
     attrs_with_docs(out, &d["doc"], &attrs, st);
     out.push_str(&format!(
         "{}enum {}{}:{}{} {{\n",
